@@ -6,6 +6,7 @@ the real routines, plus monitors that evaluate the property statement itself (an
 the REAL output against an independent exact-rational / cmath oracle written here.  The failing-input
 search uses only the real code, the oracle and the monitors — never the Lean model."""
 import cmath
+import logging
 import math
 import os
 import shutil
@@ -17,6 +18,8 @@ import numpy as np
 
 import common
 from common import bits2float, dec
+
+logging.disable(logging.WARNING)      # the library logs every call at INFO
 
 PROP = "C15"
 PROPS_FILES = ["Pms/Props/C15.lean", "Pms/Props/C15F.lean"]
@@ -253,7 +256,7 @@ def gen_dec(rng, edge=False):
     pos = gen_positions(rng, N, d, L)
     kind, v, A = gen_field(rng, N, d, pos)
     nq = rng.randint(1, 7)
-    return {"op": "dec", "N": N, "d": d, "L": L, "pos": pos, "field": kind, "v": v, "q": gen_qvectors(rng, d, nq),
+    return {"op": "dec", "N": N, "d": d, "L": L, "pos": pos, "field": kind, "v": v, "q": gen_qvectors(rng, d, nq), "qfloat": rng.random() < 0.5,
             "save": rng.random() < 0.3}
 
 
@@ -285,7 +288,7 @@ def gen_corr(rng, edge=False):
         vec.append(v)
     nq = rng.randint(1, 4)
     return {"op": "corr", "N": N, "d": d, "T": T, "L": L, "ts": ts, "style": style, "dt": rng.choice(["0.002", "0.005", "1"]),
-            "pos": pos, "v": vec, "field": k0, "q": gen_qvectors(rng, d, nq)}
+            "pos": pos, "v": vec, "field": k0, "q": gen_qvectors(rng, d, nq), "qfloat": rng.random() < 0.5}
 
 
 GEN = {"pr": gen_pr, "nb": gen_nbcase, "dc": gen_dc, "vib": gen_vib, "dec": gen_dec, "corr": gen_corr}
@@ -369,7 +372,13 @@ def real_out(c):
         if op == "dec":
             snap = snapshot(fl(c["pos"]), [float(x) for x in c["L"]])
             of = os.path.join(tmp, "dec") if c.get("save") else ""
-            tab, ave = _quiet(V.vector_decomposition_sq, snap, np.array(c["q"], dtype=int), fl(c["v"]), of)
+            qv = np.array(c["q"], dtype=(np.float64 if c.get("qfloat") else int))      # integer-valued in either dtype
+            qv0 = qv.copy()
+            if c.get("qfloat"):       # call history: the same table object has been used for an earlier call
+                _quiet(V.vector_decomposition_sq, snap, qv, fl(c["v"]), "")
+            tab, ave = _quiet(V.vector_decomposition_sq, snap, qv, fl(c["v"]), of)
+            if not np.array_equal(qv, qv0):
+                raise AssertionError("the wave-vector table was modified in place")
             res = _dec_tables(tab, ave, c["d"])
             if of:
                 import pandas as pd
@@ -382,7 +391,11 @@ def real_out(c):
             snaps = Snapshots(nsnapshots=c["T"], snapshots=[snapshot(fl(c["pos"][n]), L, timestep=c["ts"][n]) for n in range(c["T"])])
             vec = np.array([fl(v) for v in c["v"]])
             of = os.path.join(tmp, "corr")
-            out = _quiet(V.vector_fft_corr, snaps, np.array(c["q"], dtype=int), vec, float(c["dt"]), of)
+            qv = np.array(c["q"], dtype=(np.float64 if c.get("qfloat") else int))
+            qv0 = qv.copy()
+            out = _quiet(V.vector_fft_corr, snaps, qv, vec, float(c["dt"]), of)
+            if not np.array_equal(qv, qv0):
+                raise AssertionError("the wave-vector table was modified in place")
             import pandas as pd
             res = {"keys": list(out.keys())}
             for h in out:
